@@ -56,7 +56,7 @@ def query_points(rng, d, n):
 
 class Check(PropertyCheck):
     id = 'C01'
-    lean_targets = ['RegionsVerif.Props.C01', 'RegionsVerif.Props.C01Poly', 'RegionsVerif.Props.C01Cyclic', 'RegionsVerif.Props.C01Tri', 'RegionsVerif.Props.C01Convex', 'RegionsVerif.Props.C01Regular', 'RegionsVerif.Bridge.FormulasC01']
+    lean_targets = ['RegionsVerif.Props.C01', 'RegionsVerif.Props.C01Poly', 'RegionsVerif.Props.C01Cyclic', 'RegionsVerif.Props.C01Tri', 'RegionsVerif.Props.C01Convex', 'RegionsVerif.Props.C01Regular', 'RegionsVerif.Props.C01Rect', 'RegionsVerif.Bridge.FormulasC01']
     namespaces = ['RegionsVerif.Props.C01', 'RegionsVerif.Bridge.C01']
     rule = ('every shape class x sizes 1e-3..1e6 x centres to 1e6 x any angle in deg/rad/arcmin/hourangle x include flag in '
             '{absent, True, False, 1, 0} x query coordinates scalar / 0-length / 1-D / N-D (C-, Fortran-ordered, transposed and strided views), int or float; query points on a '
@@ -165,6 +165,12 @@ class Check(PropertyCheck):
             out['dtype_bool'] = (np.asarray(r).dtype == bool)
             out['ans'] = [bool(v) for v in np.ravel(r)]
         out['model_region'] = G.model(case['region'], reg)
+        # the polygon form of a rectangle / regular polygon answers the same (C01Rect, C01Regular)
+        if hasattr(reg, 'to_polygon') and shape is not None:
+            try:
+                out['as_polygon'] = [bool(v) for v in np.ravel(reg.to_polygon().contains(pc))]
+            except Exception as e:
+                out['as_polygon'] = f'{type(e).__name__}: {e}'
         return out
 
     def requests(self, case):
@@ -225,6 +231,14 @@ class Check(PropertyCheck):
             if ra != sa:
                 bad('membership_wrong', f'point={p} real={ra} spec={sa} margin={float(mg):.3g}', point=p)
                 break
+        ap = real.get('as_polygon')
+        if isinstance(ap, str):
+            bad('to_polygon_exception', ap)
+        elif ap is not None:
+            for p, pa, (sa, mg) in zip(case['pts'], ap, spec):
+                if mg >= MARGIN and pa != sa:
+                    bad('to_polygon_membership_differs', f'point={p} polygon={pa} spec={sa} margin={float(mg):.3g}', point=p)
+                    break
         return V
 
     def nontrivial(self, case, real):
